@@ -46,8 +46,14 @@ func headerToMap(header []byte) (map[string]string, error) {
 	offset := 0
 	m := make(map[string]string)
 	for offset < len(header) {
+		if len(header)-offset < 4 {
+			return nil, fmt.Errorf("short buffer")
+		}
 		fieldlen := binary.LittleEndian.Uint32(header[offset : offset+4])
 		offset += 4
+		if uint64(fieldlen) > uint64(len(header)-offset) {
+			return nil, fmt.Errorf("field length %d exceeds remaining header length %d", fieldlen, len(header)-offset)
+		}
 		index := bytes.IndexByte(header[offset:offset+int(fieldlen)], '=')
 		if index < 0 {
 			return nil, fmt.Errorf("missing kv separator")
@@ -74,6 +80,9 @@ func extractHeaderValue(header []byte, key []byte) ([]byte, error) {
 		fieldlen, offset, err = getUint32(header, offset)
 		if err != nil {
 			return nil, fmt.Errorf("failed to extract field length: %w", err)
+		}
+		if uint64(fieldlen) > uint64(len(header)-offset) {
+			return nil, fmt.Errorf("field length %d exceeds remaining header length %d", fieldlen, len(header)-offset)
 		}
 		field := header[offset : offset+int(fieldlen)]
 		separatorIdx := bytes.Index(field, []byte{'='})
@@ -133,7 +142,10 @@ func processBag(
 
 		// header
 		if len(header) < int(headerlen) {
-			header = make([]byte, headerlen*2)
+			header, err = growBuffer(headerlen)
+			if err != nil {
+				return fmt.Errorf("invalid header length: %w", err)
+			}
 		}
 		_, err = io.ReadFull(activeReader, header[:headerlen])
 		if err != nil {
@@ -155,10 +167,17 @@ func processBag(
 			return err
 		}
 
+		if len(opcode) == 0 {
+			return fmt.Errorf("empty op field in record header")
+		}
+
 		if opcode[0] == OpBagChunk {
 			// data
 			if len(chunkData) < int(datalen) {
-				chunkData = make([]byte, datalen*2)
+				chunkData, err = growBuffer(datalen)
+				if err != nil {
+					return fmt.Errorf("invalid chunk data length: %w", err)
+				}
 			}
 			_, err = io.ReadFull(activeReader, chunkData[:datalen])
 			if err != nil {
@@ -166,7 +185,10 @@ func processBag(
 			}
 		} else {
 			if len(data) < int(datalen) {
-				data = make([]byte, datalen*2)
+				data, err = growBuffer(datalen)
+				if err != nil {
+					return fmt.Errorf("invalid data length: %w", err)
+				}
 			}
 			_, err = io.ReadFull(activeReader, data[:datalen])
 			if err != nil {
@@ -219,6 +241,21 @@ func processBag(
 	return nil
 }
 
+// growBuffer returns a buffer for a record part of n bytes, with room to spare so that slightly
+// larger records do not reallocate. n comes straight from the input: lengths that do not fit a
+// signed 32-bit integer are refused (doubling them used to wrap around in uint32 arithmetic and
+// the slice expression that followed panicked), and the spare room is capped likewise.
+func growBuffer(n uint32) ([]byte, error) {
+	if n >= math.MaxInt32 {
+		return nil, fmt.Errorf("length %d out of range", n)
+	}
+	size := uint64(n) * 2
+	if size >= math.MaxInt32 {
+		size = uint64(n)
+	}
+	return make([]byte, size), nil
+}
+
 func channelIDForConnection(connID uint32) (uint16, error) {
 	if connID > math.MaxUint16 {
 		return 0, ErrTooManyConnections
@@ -246,6 +283,9 @@ func Bag2MCAP(w io.Writer, r io.Reader, opts *mcap.WriterOptions, messageCallbac
 			conn, err := extractHeaderValue(header, headerConn)
 			if err != nil {
 				return err
+			}
+			if len(conn) < 4 {
+				return fmt.Errorf("conn field has %d bytes, expected 4", len(conn))
 			}
 			connID := binary.LittleEndian.Uint32(conn)
 			topic, err := extractHeaderValue(header, headerTopic)
@@ -295,10 +335,16 @@ func Bag2MCAP(w io.Writer, r io.Reader, opts *mcap.WriterOptions, messageCallbac
 			if err != nil {
 				return err
 			}
+			if len(conn) < 4 {
+				return fmt.Errorf("conn field has %d bytes, expected 4", len(conn))
+			}
 			connID := binary.LittleEndian.Uint32(conn)
 			time, err := extractHeaderValue(header, headerTime)
 			if err != nil {
 				return err
+			}
+			if len(time) < 8 {
+				return fmt.Errorf("time field has %d bytes, expected 8", len(time))
 			}
 			nsecs := rosTimeToNanoseconds(time)
 			channelID, err := channelIDForConnection(connID)
